@@ -143,7 +143,10 @@ class CuboidCells(Cells):
 
         self._nearby_cells = {}
         for cell in self._cells:
-            self._nearby_cells[cell] = set(nearby_cell for nearby_cell in self._yield_nearby_cells(cell))
+            # Use the keys of a dictionary as an insertion-ordered set. The iteration order of a set of cells depends on
+            # their memory addresses so that it is neither the same in two runs with the same random seed, nor in a run
+            # and in its continuation based on a dumped mediator.
+            self._nearby_cells[cell] = dict.fromkeys(self._yield_nearby_cells(cell))
 
     def _yield_nearby_cells(self, cell: Cell) -> Iterable[Cell]:
         """
@@ -227,7 +230,7 @@ class CuboidCells(Cells):
         Set[Cell]
             The set of nearby cells.
         """
-        return self._nearby_cells[cell]
+        return self._nearby_cells[cell].keys()
 
     def neighbor_cell(self, cell: Cell, direction: int, positive: bool) -> Optional[Cell]:
         """
